@@ -7,10 +7,23 @@ E1="shadowvm"
 checks = {
  # id: (engine, technique, level text, level note, design ref)
  "C01": (E1,"property-based testing: generated mutator programs vs. shadow-heap reference model (proptest, shrinking)","Randomized exploration: generated programs x 11 plans x 4 metadata layouts x 1-4 workers, each run against real MMTk in its own process; after every pause a lock-step walk compares the real heap with an out-of-heap shadow graph (identity, size, payload, slots). Finds violations, never proves absence.","Trusts the ShadowVM binding and the shadow model; schedules of GC workers are whatever the OS produces; heaps <= 40 MiB.","6/C01"),
+ "C17": ("unit","randomized real-thread races with widened copy window vs. single-winner oracle (proptest-generated rounds)","Randomized exploration with real OS threads (2-8 per round, barrier start) of the forwarding protocol on three metadata layouts, including declining winners. A failing schedule cannot be replayed exactly; the saved case pins the configuration only.","Real-thread interleavings are whatever the OS produces, perturbed by a generated spin; exactly-one-copy is asserted for the non-declining protocol.","6/C17"),
+ "C18": ("unit","randomized real-thread races on transition helpers vs. exactly-one-success oracle (proptest-generated rounds)","Randomized exploration with real OS threads racing MarkState::test_and_mark, the Immix attempt_mark loop, the barrier log loop, pin_object and raw header/side CAS loops, with neighbour threads flipping adjacent fields of the same metadata byte.","Schedules are OS-produced; the raced helpers are the real ones re-exported (log/mark loops are transcribed wrappers of private methods, see MANIFEST hooks).","6/C18"),
+ "C19": ("unit","stateful property-based testing with real threads: push/pop/flush histories vs. multiset model (proptest)","Randomized exploration of block pool histories with 1-4 pusher threads (own worker ordinals), 0-4 popper threads, queue overflow (256) and flushes, checked against a multiset model at every barrier.","Pushers never run concurrently with flush_all (as in mmtk).","6/C19"),
+ "C20": ("unit","stateful property-based testing: side-metadata op histories vs. integer-array model (proptest, one process per shard)","Randomized exploration of specs (1-64 bits, region 1 B-4 MiB, several offsets) x histories of all accessors against an array model; the whole 3x window is compared after every operation.","Single-threaded; 64-bit contiguous side metadata only (chunked 32-bit local metadata cannot run on this host).","6/C20"),
+ "C21": ("unit","property-based testing: bulk zero/set/copy vs. array model (proptest)","Randomized exploration of bzero/bset/bcopy ranges (mid-byte, mid-word starts/ends) over pre-filled windows.","Region-aligned ranges (callers' precondition).","6/C21"),
+ "C22": ("unit","property-based testing: fast search/scan vs. independent region-by-region scan (proptest)","Randomized exploration of find_prev/find_next/scan over sparse, dense and run-structured contents with unaligned addresses and limits from 1 to the window size.","Searches that would leave the mapped window without a hit are out of domain; mmtk's internal fast-vs-simple assertion is not the oracle (a panic counts as failure).","6/C22"),
  "C23": ("unit","property-based testing: operation histories vs. bit-exact reference model (proptest)","Randomized exploration of header specs (offset -64..127, widths 1-64, masks) x accessor histories against a 256-bit model checked after every operation.","Single-threaded histories only (races are C18).","6/C23"),
+ "C25": ("unit","property-based testing: generated spec sets vs. interval-arithmetic oracle (proptest)","Randomized exploration of 2-6 spec sets (disjoint by construction, then perturbed into overlaps incl. large offsets); the sanity check must reject exactly the overlapping sets.","Spec sizes kept below the documented total-size limits so that only overlap can cause rejection.","6/C25"),
  "C26": ("unit","stateful property-based testing: alloc/free histories vs. run-map model (proptest)","Randomized exploration of IntArrayFreeList histories incl. child lists and uncoalescable boundaries against an ordered run-map model.","RawMemoryFreeList growth is C27.","6/C26"),
+ "C27": ("unit","property-based testing: growth step sequences vs. capacity oracle, guard page (proptest)","Randomized exploration of RawMemoryFreeList configurations whose table is / is not a multiple of the block size, grown in generated steps to the maximum inside a PROT_NONE reservation with a guard after the limit.","","6/C27"),
+ "C32": ("unit","property-based testing: encode/decode round trip (proptest, one process per layout)","Randomized exploration of chunk-aligned ranges under a compressed-pointer (32-bit style) layout and all space indices under the 64-bit layout.","","6/C32"),
  "C33": ("unit","property-based testing: arithmetic vs. search / u128 oracle (proptest)","Randomized + boundary-biased exploration of align_allocation (5 MIN/MAX alignment variants) and rounding helpers against independent oracles.","Addresses >= 2^63 are outside the domain (signed Address + ByteOffset arithmetic).","6/C33"),
+ "C35": ("unit","exhaustive enumeration of the finite size x alignment space + generated fresh-block fills","Complete enumeration of sizes 0..=MAX_BIN_SIZE x alignments x 5 VM alignment variants for fit and monotonicity; generated MarkSweep runs check the cells of a fresh block per size class.","Fresh-block section is sampled, not exhaustive.","6/C35"),
  "C36": ("unit","stateful property-based testing: treadmill histories vs. four-set model (proptest)","Randomized exploration of add/flip/copy/collect histories following the LOS protocol against a set model; exactly-one-set membership checked after every step.","Protocol-conformant histories only.","6/C36"),
+ "C37": ("unit","property-based testing: generated object layouts vs. prefix-sum oracle (proptest)","Randomized exploration of object layouts in a 1 MiB region (objects spanning/abutting 512-byte blocks) with marks set exactly as CompressorSpace does.","Single region; the whole Compressor plan is exercised by C01.","6/C37"),
+ "C38": ("unit","stateful property-based testing: GC statistics histories vs. bounds invariant (proptest)","Randomized exploration of MemBalancerTrigger histories (pending allocations, statistics incl. zero times) checking min <= size <= max after every step.","Times are >= 1 ns or exactly 0 (Instant differences); page counts < 2^32.","6/C38"),
+ "C39": ("unit","grammar-based property testing with mutation vs. reference parsers (proptest)","Randomized exploration of grammar-generated and mutated option strings against reference parsers written from the documentation, with field-by-field snapshots of Options.","Where the documentation is silent (leading '+', exotic float syntax, text around Delegated, CPU count) the oracle abstains.","6/C39"),
  "C40": ("unit","property-based testing: iterator output vs. maximal-run partition oracle (proptest)","Randomized exploration of sequences x key functions x partial consumption against an independent partition.","","6/C40"),
 }
 props=[json.loads(l) for l in open("/verif/properties.jsonl")]
@@ -30,7 +43,8 @@ m={
 for i in ids:
     if i in checks:
         eng,tech,text,note,ref=checks[i]
-        m["checks"].append({"property_id":i,"quick_cmd":f"./check {i} --tier quick","thorough_cmd":f"./check {i} --tier thorough","evidence_file":f"/verif/evidence/{i}.json","replay_cmd_template":f"./check {i} --replay {{path}}","engine":eng,"level_claimed":{"category":"exploration","text":text,"design_ref":"DESIGN.md section "+ref},"level_note":note or "Trusts the harness's reference model.","technique":tech})
+        cat="other" if i=="C35" else "exploration"
+        m["checks"].append({"property_id":i,"quick_cmd":f"./check {i} --tier quick","thorough_cmd":f"./check {i} --tier thorough","evidence_file":f"/verif/evidence/{i}.json","replay_cmd_template":f"./check {i} --replay {{path}}","engine":eng,"level_claimed":{"category":cat,"text":text,"design_ref":"DESIGN.md section "+ref},"level_note":note or "Trusts the harness's reference model.","technique":tech})
     else:
         m["not_applicable"].append({"property_id":i,"reason":"check not yet registered in this commit (work in progress; see DESIGN.md section 6 for the planned check)"})
 json.dump(m,open("/verif/MANIFEST.json","w"),indent=1)
